@@ -79,3 +79,8 @@ claim('C16',
       'Batcher appends (Vec::push of the message into self.buffer), ships the whole swapped-out buffer in flush/end, applies no '
       'reordering mutator to the buffer.',
       'order of delivered elements for concrete runs; the sort routine of reorder() is trusted.')
+claim('C13',
+      'event-time assignment closures give the half-open interval [start,end) (skip iff end <= ts, take iff start <= ts); slots are '
+      'created with end = start + size; a window is released iff end <= watermark, results are stamped with the window end, only '
+      'active slots produce results, FlushAndRestart/Terminate drain every slot; no manager keeps a slot across an iteration end.',
+      'conservation for arbitrary out-of-order sequences; the numeric slot arithmetic.')
